@@ -10,6 +10,7 @@ export VERIF_DIR
 export CARGO_NET_OFFLINE=true
 ID="${1:-}"
 TIER="${2:-quick}"
+ORIG_PWD="$OLDPWD"
 if [ -z "$ID" ]; then echo "usage: $0 <ID> <quick|thorough> | replay <file>"; exit 2; fi
 cd harness
 build() { # $1 = target dir, rest = cargo args
@@ -31,6 +32,7 @@ run() { # watchdog in seconds, then command
   return $rc
 }
 if [ "$ID" = "replay" ]; then
+  case "$TIER" in /*) ;; *) TIER="$VERIF_DIR/$TIER";; esac
   build target || exit 2
   run 3600 ./target/release/vcheck replay "$TIER"
   exit $?
@@ -42,4 +44,13 @@ case "$ID" in
 esac
 build target || exit 2
 run $LIMIT ./target/release/vcheck "$ID" "$TIER"
-exit $?
+rc=$?
+# thorough tier of the byte-level properties: coverage-guided campaign with the same oracle in-target
+if [ "$TIER" = "thorough" ] && [ $rc -eq 0 ]; then
+  case "$ID" in
+    C06) "$VERIF_DIR/fuzz.sh" C06 fz_verify "${FUZZ_SECONDS:-600}" 16; rc=$? ;;
+    C02) "$VERIF_DIR/fuzz.sh" C02 fz_verify "${FUZZ_SECONDS:-300}" 16; rc=$? ;;
+    C11) "$VERIF_DIR/fuzz.sh" C11 fz_signer "${FUZZ_SECONDS:-600}" 16; rc=$? ;;
+  esac
+fi
+exit $rc
